@@ -40,7 +40,7 @@ def H(k, *args):
     LOG.append(("H", k, tuple(_plain(a) for a in args)))
     s = k
     for a in args:
-        s = s * 3 + (a if isinstance(a, int) else len(repr(a)))
+        s = s * 3 + (a if isinstance(a, int) else len(repr(_plain(a))))
     return s % 1000
 
 def R(k):
@@ -89,9 +89,12 @@ def _plain(a):
         return tuple(_plain(x) for x in a)
     return type(a).__name__
 
+LATEST = {}
+
 def BL(name, value):
-    """twin only: record one binding"""
-    BLOG.append((name, _plain(value)))
+    """twin only: record one binding (and the latest value of every variable, in binding order)"""
+    BLOG.append((name, value))
+    LATEST[name] = value
     return value
 '''
 
@@ -101,7 +104,8 @@ VARS = ["a", "b", "c", "d", "e"]
 class Gen:
     """random program generator; every choice comes from the given PRNG"""
 
-    def __init__(self, rng, features=None, nparams=None):
+    def __init__(self, rng, features=None, nparams=None, weights=None):
+        self.weights = weights or {}
         self.rng = rng
         self.k = itertools.count(1)
         self.features = features or {
@@ -128,8 +132,6 @@ class Gen:
             n = self.rng.randrange(0, 3)
             args = ", ".join(self.expr(bound, depth + 1) for _ in range(n))
             return "H(%d%s)" % (self.nk(), ", " + args if args else "")
-        if r < 0.75 and "walrus" in self.features and depth == 0:
-            return "(%s := %s) + 1" % (self.rng.choice(VARS), self.expr(bound, depth + 1))
         if r < 0.8 and "lambda" in self.features:
             return "(lambda q: q + %s)(%s)" % (self.expr(bound, 2), self.expr(bound, 2))
         if r < 0.85 and "comp" in self.features:
@@ -158,9 +160,9 @@ class Gen:
         rng = self.rng
         choices = ["assign"] * 5
         for f, w in (("tuple", 2), ("star", 1), ("nested", 1), ("attr", 1), ("sub", 1), ("chain", 1), ("aug", 2),
-                     ("ann", 2), ("import", 1), ("expr", 1), ("decl", 0)):
-            if f in F or f == "expr":
-                choices += [f] * w
+                     ("ann", 2), ("import", 1), ("expr", 1), ("decl", 0), ("walrus", 1), ("undef", 0)):
+            if f in F or f == "expr" or f in self.weights:
+                choices += [f] * self.weights.get(f, w)
         if depth < 2:
             for f, w in (("for", 3), ("while", 1), ("if", 3), ("try", 2), ("with", 2), ("def", 1), ("class", 1)):
                 if f in F:
@@ -207,6 +209,11 @@ class Gen:
             return ("aug", ("name", rng.choice(cands)), rng.choice(["+", "*", "-"]), self.expr(bound)), bound
         if kind == "ann":
             return ("ann", v, rng.choice(["int", "'@T'", "'@T & @U'"]), self.expr(bound)), bound | {v}
+        if kind == "walrus":
+            w = rng.choice([x for x in VARS if x != v])
+            return ("walrus", v, w, self.expr(bound)), bound | {v, w}
+        if kind == "undef":
+            return ("assign", [("name", v)], "UNDEF%d + %s" % (rng.randrange(1, 3), self.expr(bound, 2))), bound | {v}
         if kind == "decl":
             return ("ann", v, rng.choice(["int", "'@T'"]), None), bound
         if kind == "import":
@@ -307,7 +314,7 @@ def target_names(t):
     return []
 
 
-def render(fn, twin=False, subst=None, ann_params=None):
+def render(fn, twin=False, subst=None, ann_params=None, decl=None):
     """source text of the function.
     twin: add BL(name, value) after every binding Python makes.
     subst: (varname, "SUBST") — twin in which every binding of varname re-stores SUBST(name, value, locals())"""
@@ -320,7 +327,7 @@ def render(fn, twin=False, subst=None, ann_params=None):
         out = []
         for n in names:
             if subst and n == subst[0]:
-                out.append("%s%s = %s(%r, %s, locals())" % (ind, n, subst[1], n, n))
+                out.append("%s%s = %s(%r, %s, LATEST)" % (ind, n, subst[1], n, n))
             if twin:
                 out.append("%sBL(%r, %s)" % (ind, n, n))
         return out
@@ -332,13 +339,22 @@ def render(fn, twin=False, subst=None, ann_params=None):
             k = s[0]
             if k == "assign":
                 tg = " = ".join(target_text(t) for t in s[1])
+                if subst and len(s[1]) == 1 and s[1][0][0] == "attr" and subst[0] == "%s.%s" % (s[1][0][1], s[1][0][2]):
+                    lines.append("%s%s = %s(%r, %s, LATEST)" % (ind, tg, subst[1], subst[0], s[2]))
+                    continue
                 lines.append("%s%s = %s" % (ind, tg, s[2]))
                 lines.extend(post_bind([n for t in s[1] for n in target_names(t)], ind))
+            elif k == "walrus":
+                lines.append("%s%s = (%s := %s) + 1" % (ind, s[1], s[2], s[3]))
+                lines.extend(post_bind([s[2], s[1]], ind))
             elif k == "aug":
                 lines.append("%s%s %s= %s" % (ind, target_text(s[1]), s[2], s[3]))
                 lines.extend(post_bind(target_names(s[1]), ind))
             elif k == "ann":
-                if s[3] is None:
+                if s[3] is None and decl is not None:
+                    # twin of a declaration: what ptera's documented semantics says happens there
+                    lines.append("%s%s" % (ind, decl(s[1])))
+                elif s[3] is None:
                     lines.append("%s%s: %s" % (ind, s[1], s[2]))
                 else:
                     lines.append("%s%s: %s = %s" % (ind, s[1], s[2], s[3]))
@@ -396,12 +412,24 @@ def render(fn, twin=False, subst=None, ann_params=None):
                 emit(s[3], ind + "    ")
             elif k == "def":
                 lines.append("%sdef %s(%s):" % (ind, s[1], s[2]))
-                emit(s[3], ind + "    ")
+                emit_plain(s[3], ind + "    ")
+                lines.extend(post_bind([s[1]], ind))
             elif k == "class":
                 lines.append("%sclass %s:" % (ind, s[1]))
-                emit(s[2], ind + "    ")
+                emit_plain(s[2], ind + "    ")
+                lines.extend(post_bind([s[1]], ind))
             else:
                 raise ValueError(k)
+
+    def emit_plain(stmts, ind):
+        # nested scopes: their bindings are not the function's
+        nonlocal twin, subst
+        t, sb = twin, subst
+        twin, subst = False, None
+        try:
+            emit(stmts, ind)
+        finally:
+            twin, subst = t, sb
 
     emit(fn["body"], "    ")
     return "\n".join(lines) + "\n"
@@ -443,6 +471,8 @@ def bound_names(fn):
                     names.extend(target_names(t))
             elif k == "aug":
                 names.extend(target_names(s[1]))
+            elif k == "walrus":
+                names.extend([s[2], s[1]])
             elif k == "ann" and s[3] is not None:
                 names.append(s[1])
             elif k == "import":
